@@ -342,7 +342,13 @@ func runC02(c *Ctx) error {
 	if err := c02LongLivedOT(c); err != nil {
 		return err
 	}
-	return c02CLI(c)
+	if err := c02Doors(c); err != nil { // c02doors.go: transports, call patterns, boundaries (oracle only)
+		return err
+	}
+	if err := c02CLI(c); err != nil {
+		return err
+	}
+	return c02CLIMore(c) // c02cli.go: flags, circuit files, environment, a peer that goes away
 }
 
 // c02LongLivedOT: one OT object per PEER, kept over several sessions (each session on a new
